@@ -482,6 +482,9 @@ func TestC14(t *testing.T) {
 					dst := image.NewRGBA64(image.Rect(0, dy, 256, dy+256))
 					if layout == "destination is a sub-image" {
 						dst = image.NewRGBA64(image.Rect(-3, -2, 261, 257))
+						if (si+len(op)+len(srcKind))%2 == 0 {
+							dst = image.NewRGBA64(image.Rect(-3, -2, 256, 256)) // the sub-image is the parent's bottom-right corner
+						}
 					}
 					for i := range dst.Pix {
 						dst.Pix[i] = 0xAB
